@@ -1,6 +1,9 @@
 package zzmain
 
-import "go.uber.org/thriftrw/internal/zzsim/world/pluginw"
+import (
+	"go.uber.org/thriftrw/internal/zzsim/world/orderw"
+	"go.uber.org/thriftrw/internal/zzsim/world/pluginw"
+)
 
 // HostMain is main.do, set by the root package's TestMain.
 var HostMain func() error
@@ -11,6 +14,7 @@ var TBRun func(args []string) error
 // Init wires the injected entry points into the engines.
 func Init() {
 	pluginw.HostMain = HostMain
+	orderw.TBRun = TBRun
 }
 
 func init() {
